@@ -389,6 +389,10 @@ func cfTlActs(fd *ast.FuncDecl) []string {
 		case key != "" && s0 == "var found interface{}" && s1 == "if ok { found, ok = ls["+key+"] }":
 			acts = append(acts, ".lookupKeyIfTable")
 			i += 2
+		case key != "" && s0 == "if !ok { return nil, false }" && s1 == "found, ok := ls["+key+"]":
+			// the same lookup with the missing table answered by an early return
+			acts = append(acts, ".lookupKeyIfTable")
+			i += 2
 		case s0 == "gid := getg()":
 			acts = append(acts, ".getGid")
 			i++
